@@ -342,13 +342,15 @@ class Pacing:
         if k == "rename" and is_dir_subject and op[1] in self.arrived and not self._hits(op[2]) and not self._covers(op[2]):
             # the directory that has just arrived may be renamed again right away
             others = self.blocked - {op[1]}
-            if not any(op[1].startswith(b + "/") for b in others) and not any(b.startswith(op[1] + "/") for b in others):
+            if not any(op[1].startswith(b + "/") for b in others):
                 return True
         for p in paths:
             if self._hits(p):
                 return False
-            if is_dir_subject and self._covers(p):
-                return False
+            if is_dir_subject and k not in ("rename", "move_out") and self._covers(p):
+                return False  # creating / removing something onto an ancestor name of a blocked directory
+            if is_dir_subject and k in ("rename", "move_out") and p == op[2 if k == "rename" else 1] and k == "rename" and self._covers(p):
+                return False  # the destination of a rename may not be an ancestor name of a blocked directory
         return True
 
     def note(self, op, model_before):
@@ -356,9 +358,6 @@ class Pacing:
         if k in ("mkdir", "makedirs"):
             self.blocked.add(op[1])
             self.arrived.add(op[1])
-            if k == "makedirs":
-                # nested directories have just been created too: renaming the top would change their names
-                self.blocked.update(join(op[1], rel) for rel, kind in op[2] if kind == "d")
         elif k in ("rmdir", "rmtree"):
             self.blocked.add(op[1])
         elif k in ("rename", "replace") and model_before.kind(op[1]) == "d":
@@ -393,7 +392,9 @@ def check_pacing(bursts, model):
 
 # ----------------------------------------------------------------------------- generator
 
-NAMES = ["a", "b", "c"]
+# "a" / "ab": sibling names of which one is a string prefix of the other (textual prefix tests without a separator
+# boundary confuse them); "b" unrelated
+NAMES = ["a", "ab", "b"]
 
 
 def candidate_ops(m: Model, opts):
